@@ -34,10 +34,13 @@ FUNCTIONS = [
 OPTSETS = [{"version": 2.0}, {"version": 1.2}, {"version": 2.0, "wrap": True, "data_width": 24}, {}]
 BASE = {
     "V": ["~Version", "VERS. 2.0 : v", "WRAP. NO : w"],
-    "W": ["~Well", "STRT.M 1.0 : s", "STOP.M 2.0 : e", "STEP.M 1.0 : i", "NULL. -999.25 : n", "COMP. ACME OIL & GAS COMPANY LIMITED : company", "BIG. 1234567.891 : big", "SML. -0.000012345 : small", "EXP. 1E5 : exp"],
-    "C": ["~Curve", "DEPT..1IN : depth", "RHO.K/M3 : dup 1", "RHO.K/M3 : dup 2", ". : unnamed"],
-    "P": ["~Parameter", "NE.k : empty value with unit", "LONG.UNITS a rather long value field 1234567890 : a long description as well",
+    # the long fields sit in ~Well: the sections that receive the symbolic line (~P, ~C) stay narrow, so that the
+    # paddings the writer computes for a short symbolic item stay within the engine's bound on symbolic paddings
+    "W": ["~Well", "STRT.M 1.0 : s", "STOP.M 2.0 : e", "STEP.M 1.0 : i", "NULL. -999.25 : n", "COMP. ACME OIL & GAS COMPANY LIMITED : company", "BIG. 1234567.891 : big", "SML. -0.000012345 : small", "EXP. 1E5 : exp",
+          "LONG.UNITS a rather long value field 1234567890 : a long description as well",
           "REM .ANY this remark is a very long value field that runs well past eighty characters in total width 1234567890 : remark"],
+    "C": ["~Curve", "DEPT..1IN : depth", "RHO.K/M3 : dup 1", "RHO.K/M3 : dup 2", ". : unnamed"],
+    "P": ["~Parameter", "NE.k : empty value with unit", "BHT.DEGC 35.5 : temperature"],
     "A": ["~A", "1.0 10.5 2.25 -0.125", "2.0 -999.25 2.5 0.375"],
 }
 BOUNDS = {
@@ -63,18 +66,137 @@ def _tilde_conc(i):
     return re.match(r"\.\s*~", i["L"].strip()) is not None
 
 
-EXCLUSIONS = {"line_parsed_into_a_mnemonic_starting_with_tilde": (_tilde_sym, _tilde_conc)}
+def _has(x, ch):
+    if isinstance(x, SymStr):
+        return z.Or([z.And(x.inlen(k), z.eq_c(x.chars[k], ord(ch))) for k in range(x.cap)])
+    return isinstance(x, str) and ch in x
+
+
+def unrepresentable_mnemonic(it):
+    """the (stripped) mnemonic starts with '~' or '#', or contains ':' or '.' next to an empty unit: the line the writer
+    emits for it is a title / a comment / splits elsewhere"""
+    m = it.original_mnemonic
+    ms = SymStr.lift(SymStr.lift(m).strip()) if isinstance(m, SymStr) else m.strip()
+    starts = z.Or(B(SymStr.lift(ms).startswith("~")), B(SymStr.lift(ms).startswith("#"))) if isinstance(ms, SymStr) else ms[:1] in ("~", "#")
+    unit_empty = SymStr.lift(it.unit).eq_expr("") if isinstance(it.unit, (str, SymStr)) else False
+    return z.Or(starts, _has(m, ":"), z.And(_has(m, "."), unit_empty))
+
+
+def blank_mnemonic_with_period(it):
+    m = it.original_mnemonic
+    blank = SymStr.lift(SymStr.lift(m).strip()).eq_expr("") if isinstance(m, SymStr) else m.strip() == ""
+    return z.And(blank, z.Or([_has(getattr(it, f), ".") for f in ("unit", "value", "descr")]))
+
+
+def digit_unit_with_empty_value(it):
+    """unit made of digits (and blanks) with an empty value: write() turns the empty value into 0, which the reader
+    then takes into the unit ('9' -> '9 0'), and one cycle later the value 0 appears"""
+    u, v = it.unit, it.value
+    if not isinstance(u, (str, SymStr)) or not isinstance(v, (str, SymStr)):
+        return False
+    u = SymStr.lift(u)
+    digits = z.And([z.Or(z.Not(u.inlen(k)), z.in_range_c(u.chars[k], 48, 57), z.eq_c(u.chars[k], 32)) for k in range(u.cap)] + [z.Not(u.eq_expr(""))])
+    return z.And(digits, SymStr.lift(v).eq_expr(""))
+
+
+def _conc_states(i):
+    """items of the symbolic line's section after the first read and after the first re-read, on the real lasio"""
+    import io
+    import lasio
+
+    out = []
+    try:
+        s1 = lasio.read("\n".join(file_lines(i["section"], i["L"], i.get("base", "std"))) + "\n", engine="normal", mnemonic_case="preserve")
+        out += list(s1.sections[W.SECTIONS[i["section"]]])
+        buf = io.StringIO()
+        s1.write(buf, **OPTSETS[i["opts"]])
+        s2 = lasio.read(buf.getvalue(), engine="normal", mnemonic_case="preserve")
+        for sec in s2.sections.values():
+            if not isinstance(sec, str):
+                out += list(sec)
+    except Exception:
+        pass
+    return out
+
+
+def _unrep_conc(i):
+    return any(bool(unrepresentable_mnemonic(it)) for it in _conc_states(i))
+
+
+def _blankdot_conc(i):
+    return any(bool(blank_mnemonic_with_period(it)) for it in _conc_states(i))
+
+
+def _digitunit_conc(i):
+    return any(bool(digit_unit_with_empty_value(it)) for it in _conc_states(i))
+
+
+# the two classes below are stated over what the reader makes of the line (and of lasio's first output), so their
+# symbolic form is conjoined in the harness (driver.exclude_late) once those items exist
+EXCLUSIONS = {"line_parsed_into_a_mnemonic_starting_with_tilde": (_tilde_sym, _tilde_conc),
+              "item_with_a_mnemonic_no_header_line_can_carry": (lambda i: False, _unrep_conc),
+              "blank_mnemonic_with_a_period_in_another_field": (lambda i: False, _blankdot_conc),
+              "digit_unit_with_an_empty_value": (lambda i: False, _digitunit_conc)}
+
+
+def late_exclusions(las):
+    from symlas.driver import exclude_late
+
+    for sec in las.sections.values():
+        if isinstance(sec, (str, SymStr)):
+            continue
+        for it in list.__iter__(sec):
+            if any(isinstance(getattr(it, f), SymStr) for f in ("original_mnemonic", "unit", "value", "descr")):
+                exclude_late("item_with_a_mnemonic_no_header_line_can_carry", unrepresentable_mnemonic(it))
+                exclude_late("blank_mnemonic_with_a_period_in_another_field", blank_mnemonic_with_period(it))
+                exclude_late("digit_unit_with_an_empty_value", digit_unit_with_empty_value(it))
+
+
+CLASSES = {"colon": lambda c: z.eq_c(c, 58), "period": lambda c: z.eq_c(c, 46), "blank": lambda c: z.eq_c(c, 32),
+           "other": lambda c: z.Not(z.in_set_c(c, (58, 46, 32)))}
+
+
+def splits(cap):
+    """exhaustive case-split of the symbolic line by its length and the classes of its first two characters
+    (one task each: the cases are independent and run in parallel)"""
+    out = [[n] for n in range(0, min(cap, 2))]
+    for n in range(min(cap, 2), cap + 1):
+        if n == 1:
+            out += [[1, c0] for c0 in CLASSES]
+        elif n >= 2:
+            out += [[n, c0, c1] for c0 in CLASSES for c1 in CLASSES]
+    return out
 
 
 def tasks(tier):
     b = BOUNDS[tier]
-    out = [{"name": "%s/opts%d" % (sec, oi), "params": {"section": sec, "opts": oi, "cap": b["line_cap"], "base": "std"}} for sec in b["sections"] for oi in b["optsets"]]
-    out += [{"name": "%s/opts%d/dupnull" % (sec, oi), "params": {"section": sec, "opts": oi, "cap": b["line_cap"], "base": "dupnull"}} for sec in b["sections"][:1] for oi in (0, 1)]
-    return out
+    fams = [(sec, oi, "std") for sec in b["sections"] for oi in b["optsets"]]
+    if tier == "quick":
+        fams += [("P", 1, "dupnull"), ("P", 0, "unitlonger"), ("P", 1, "nounit")]
+    else:
+        fams += [("P", oi, bs) for oi in (0, 1) for bs in ("dupnull", "unitlonger", "nounit")]
+    return [{"name": "%s/opts%d/%s/%s" % (sec, oi, bs, "-".join(map(str, sp))), "params": {"section": sec, "opts": oi, "cap": b["line_cap"], "base": bs, "split": sp}, "weight": sp[0]}
+            for sec, oi, bs in fams for sp in splits(b["line_cap"])]
+
+
+# bases in which the index curve's unit is longer than the unit of STRT/STOP/STEP (or those have none) and
+# STRT/STOP/STEP are the widest unit+value entries of ~Well: the writer re-units them from the curve
+ALT = {
+    "unitlonger": {"W": ["~Well", "STRT.M 1670.125 : s", "STOP.M 1670.25 : e", "STEP.M 0.125 : i", "NULL. -999.25 : n"], "C": ["~Curve", "DEPT.METRES : depth", "GR.API : g"],
+                   "P": ["~Parameter", "NE.k : empty value with unit"], "A": ["~A", "1670.125 10.5", "1670.25 11.5"]},
+    "nounit": {"W": ["~Well", "STRT. 1670.125 : s", "STOP. 1670.25 : e", "STEP. 0.125 : i", "NULL. -999.25 : n"], "C": ["~Curve", "DEPT.FT : depth", "GR.API : g"],
+               "P": ["~Parameter", "NE.k : empty value with unit"], "A": ["~A", "1670.125 10.5", "1670.25 11.5"]},
+}
 
 
 def file_lines(section, L, base="std"):
     out = []
+    if base in ALT:
+        for k in ("V", "W", "C", "P"):
+            out += ALT[base].get(k, BASE[k])
+            if k == section:
+                out.append(L)
+        return out + ALT[base]["A"]
     for k in ("V", "W", "C", "P"):
         out += BASE[k]
         if k == "W" and base == "dupnull":
@@ -112,6 +234,11 @@ def harness(ns, params):
         L = SymStr.fresh("L", cap)
         A(allc(L, printable_ascii))
         A(z.Not(B(SymStr.lift(L.strip()).startswith("~"))))
+        sp = params.get("split")
+        if sp:
+            A(z.eq_i(L.n, sp[0]))
+            for k, cls in enumerate(sp[1:]):
+                A(CLASSES[cls](L.chars[k]))
         inputs = {"section": section, "opts": params["opts"], "L": L, "base": base}
         cx = core.ctx()
         cx.inputs = inputs
@@ -124,7 +251,7 @@ def harness(ns, params):
         except Exception:
             raise core.Abort("not an accepted input")
         sec = s1.sections[W.SECTIONS[section]]
-        nbase = len(BASE[section]) - 1 + (1 if (section == "W" and base == "dupnull") else 0)
+        nbase = len((ALT[base] if base in ALT else BASE)[section]) - 1 + (1 if (section == "W" and base == "dupnull") else 0)
         items = list(list.__iter__(sec))
         if len(items) > nbase:
             core.witness("symbolic-line-parsed-as-item")
@@ -138,6 +265,7 @@ def harness(ns, params):
             sec.assign_duplicate_suffixes(it.useful_mnemonic)
         else:
             core.witness("symbolic-line-skipped-or-comment")
+        late_exclusions(s1)
         try:
             s2, t2 = cycle(ns, s1, opts)
         except core.Abort:
@@ -145,6 +273,7 @@ def harness(ns, params):
         except Exception as e:
             core.oblige("own-output-is-readable", False, info=repr(e)[:200])
             return {"observed": {"raised": "cycle1:" + type(e).__name__}}
+        late_exclusions(s2)
         h2, d2 = W.snapshot_sections(s2), DF.curves_as_lists(s2)
         k2 = [cv.mnemonic for cv in list.__iter__(s2.curves)]
         try:
@@ -187,14 +316,15 @@ def replay(i):
         s2, t2 = cyc(s1)
     except Exception as e:
         return {"ok": False, "detail": "lasio cannot re-read/write what it read from line %r: %r" % (i["L"], e), "observed": {"raised": "cycle1:" + type(e).__name__}}
+    h2, d2, k2 = W.snapshot_sections(s2), DF.curves_as_lists(s2), [c.mnemonic for c in s2.curves]  # before write() normalises s2 in memory
     try:
         s3, t3 = cyc(s2)
     except Exception as e:
         return {"ok": False, "detail": "second cycle raised %r on lasio's own output:\n%s" % (e, t2[:1500]), "observed": {"raised": "cycle2:" + type(e).__name__}}
-    h2, d2, h3, d3 = W.snapshot_sections(s2), DF.curves_as_lists(s2), W.snapshot_sections(s3), DF.curves_as_lists(s3)
+    h3, d3 = W.snapshot_sections(s3), DF.curves_as_lists(s3)
     obl = W.sections_equal(h3, h2, skip=())
     obl.append(("same-curve-data", DF.same_cols(d3, d2)))
-    obl.append(("same-session-mnemonics", [c.mnemonic for c in s2.curves] == [c.mnemonic for c in s3.curves]))
+    obl.append(("same-session-mnemonics", k2 == [c.mnemonic for c in s3.curves]))
     bad = [n for n, c in obl if not bool(c)]
     sec = W.SECTIONS[i["section"]]
     return {"ok": not bad, "detail": "ok" if not bad else "drift in %r for input line %r: after first re-read ~%s = %r, after the second = %r\nfirst output:\n%s" % (bad, i["L"], sec, h2.get(sec), h3.get(sec), "\n".join(l for l in t2.splitlines() if not l[:1].isdigit())[:1800]),
